@@ -2,6 +2,8 @@
 # confirm_seed.sh <ID> <n>: independently confirm a seeded defect delivered in /tmp/seed/<ID>/out/<n>/
 # (demo passes on clean HEAD; with patch: builds, full unedited suite passes, demo fails) and store it in /verif/seeded/<ID>-<n>/
 id="$1"; n="$2"; src="/tmp/seed/$id/out/$n"
+# optional 3rd argument: name under /verif/seeded (default <ID>-<n>)
+name="${3:-$id-$n}"
 [ -f "$src/patch.diff" ] || { echo "$id-$n: no patch"; exit 1; }
 wt="/tmp/confirm/$id-$n"
 rm -rf "$wt"; mkdir -p /tmp/confirm
@@ -31,9 +33,9 @@ echo "$mut_demo" | grep -qE "FAILED|test failed" || ok=0
 [ "$suite_fail" = "0" ] || ok=0
 cd /; git -C /repo worktree remove --force "$wt"
 if [ $ok = 1 ]; then
-  d="/verif/seeded/$id-$n"; mkdir -p "$d"; cp "$src/patch.diff" "$d/"; cp "$src/$demo" "$d/"; cp "$src/PLACE" "$d/"; cp "$src/README.md" "$d/README.md"
+  d="/verif/seeded/$name"; mkdir -p "$d"; cp "$src/patch.diff" "$d/"; cp "$src/$demo" "$d/"; cp "$src/PLACE" "$d/"; cp "$src/README.md" "$d/README.md"
   echo "$base_demo | suite with patch: $suite_pass passed, $suite_fail failed | demo with patch: $mut_demo" > "$d/CONFIRMED.txt"
-  echo "$id-$n CONFIRMED"
+  echo "$name CONFIRMED"
 else
-  echo "$id-$n NOT CONFIRMED"
+  echo "$name NOT CONFIRMED"
 fi
